@@ -264,6 +264,9 @@ func (x *Exec) evCall(st *State, call *ast.CallExpr) []Val {
 		if c := x.fnValueContract(call); c != nil && sig != nil {
 			results = x.applyContractSig(st, call, sig, c.Local, "self", c, nil, args)
 		} else {
+			// like a call of a contract-less function: everything is havocked for a reason unrelated to the
+			// property (recorded, so that a NEW such call makes failures "needs a contract", not violations)
+			x.prog.noContract[x.fname+" => funcvalue:"+x.prog.text(call.Fun)] = true
 			x.havocAll(st, "call through function value at "+x.posn(call.Pos()).String())
 			results = x.freshResults(st, call, "fv")
 		}
